@@ -81,7 +81,97 @@ pub const S_MAMP: usize = 23;
 pub const S_MTXP: usize = 24;
 pub const S_BLEND: usize = 25;
 pub const S_CFLAGS: usize = 26;
-pub const NSITES: usize = 27;
+pub const S_HOLES: usize = 27;
+pub const NSITES: usize = 28;
+
+/// Halves of the 64-bit hole bitmap that are "small numbers": with the high_res_holes flag the bitmap
+/// lives in the 8 header bytes that otherwise hold ofs_height (lower half) and ofs_normal (upper
+/// half), so a half that looks like a plausible offset (non-zero, below 256 KiB) is the interesting
+/// case for a reader; 0x3FFFF / 0x40000 sit on the two sides of that bound, 0x90 lands inside the chunk.
+pub const SMALL_HALVES: [u64; 5] = [1, 0x90, 0x1000, 0x3FFFF, 0x40000];
+
+/// Alphabet of the `hole_bitmap` site after its default value, as (bitmap, class), simplest first and
+/// without repetitions (a value that belongs to two classes is listed under the first one):
+/// empty, the 64 single holes, the 8 full rows, the 8 full columns, lower half small / upper half
+/// zero, upper half small / lower half zero, both halves small (5 x 5), dense.
+pub fn hole_alphabet() -> Vec<(u64, &'static str)> {
+    let mut out: Vec<(u64, &'static str)> = vec![];
+    let mut add = |v: u64, class: &'static str| {
+        if !out.iter().any(|(x, _)| *x == v) {
+            out.push((v, class));
+        }
+    };
+    add(0, "empty");
+    for k in 0..64 {
+        add(1u64 << k, "single_hole");
+    }
+    for r in 0..8 {
+        add(0xFFu64 << (8 * r), "full_row");
+    }
+    for c in 0..8 {
+        add(0x0101_0101_0101_0101u64 << c, "full_column");
+    }
+    for s in SMALL_HALVES {
+        add(s, "lower_half_small_upper_zero");
+    }
+    for s in SMALL_HALVES {
+        add(s << 32, "upper_half_small_lower_zero");
+    }
+    for hi in SMALL_HALVES {
+        for lo in SMALL_HALVES {
+            add(hi << 32 | lo, "both_halves_small");
+        }
+    }
+    add(u64::MAX, "dense");
+    out
+}
+
+/// Value names of the `hole_bitmap` site: the default (the pattern every earlier round of this check
+/// used: a diagonal xor-ed with the chunk index) and then `hole_alphabet()` spelled as hex literals;
+/// `check_hole_vals()` asserts that the two agree.
+pub const HOLE_VALS: [&str; 112] = [
+    "diagonal_xor_index",
+    "0x0000000000000000", "0x0000000000000001", "0x0000000000000002", "0x0000000000000004",
+    "0x0000000000000008", "0x0000000000000010", "0x0000000000000020", "0x0000000000000040",
+    "0x0000000000000080", "0x0000000000000100", "0x0000000000000200", "0x0000000000000400",
+    "0x0000000000000800", "0x0000000000001000", "0x0000000000002000", "0x0000000000004000",
+    "0x0000000000008000", "0x0000000000010000", "0x0000000000020000", "0x0000000000040000",
+    "0x0000000000080000", "0x0000000000100000", "0x0000000000200000", "0x0000000000400000",
+    "0x0000000000800000", "0x0000000001000000", "0x0000000002000000", "0x0000000004000000",
+    "0x0000000008000000", "0x0000000010000000", "0x0000000020000000", "0x0000000040000000",
+    "0x0000000080000000", "0x0000000100000000", "0x0000000200000000", "0x0000000400000000",
+    "0x0000000800000000", "0x0000001000000000", "0x0000002000000000", "0x0000004000000000",
+    "0x0000008000000000", "0x0000010000000000", "0x0000020000000000", "0x0000040000000000",
+    "0x0000080000000000", "0x0000100000000000", "0x0000200000000000", "0x0000400000000000",
+    "0x0000800000000000", "0x0001000000000000", "0x0002000000000000", "0x0004000000000000",
+    "0x0008000000000000", "0x0010000000000000", "0x0020000000000000", "0x0040000000000000",
+    "0x0080000000000000", "0x0100000000000000", "0x0200000000000000", "0x0400000000000000",
+    "0x0800000000000000", "0x1000000000000000", "0x2000000000000000", "0x4000000000000000",
+    "0x8000000000000000", "0x00000000000000ff", "0x000000000000ff00", "0x0000000000ff0000",
+    "0x00000000ff000000", "0x000000ff00000000", "0x0000ff0000000000", "0x00ff000000000000",
+    "0xff00000000000000", "0x0101010101010101", "0x0202020202020202", "0x0404040404040404",
+    "0x0808080808080808", "0x1010101010101010", "0x2020202020202020", "0x4040404040404040",
+    "0x8080808080808080", "0x0000000000000090", "0x000000000003ffff", "0x0000009000000000",
+    "0x0003ffff00000000", "0x0000000100000001", "0x0000000100000090", "0x0000000100001000",
+    "0x000000010003ffff", "0x0000000100040000", "0x0000009000000001", "0x0000009000000090",
+    "0x0000009000001000", "0x000000900003ffff", "0x0000009000040000", "0x0000100000000001",
+    "0x0000100000000090", "0x0000100000001000", "0x000010000003ffff", "0x0000100000040000",
+    "0x0003ffff00000001", "0x0003ffff00000090", "0x0003ffff00001000", "0x0003ffff0003ffff",
+    "0x0003ffff00040000", "0x0004000000000001", "0x0004000000000090", "0x0004000000001000",
+    "0x000400000003ffff", "0x0004000000040000", "0xffffffffffffffff",
+];
+
+/// The bitmap a `hole_bitmap` value name stands for (None: the default pattern).
+pub fn hole_value(name: &str) -> Option<u64> {
+    name.strip_prefix("0x").map(|h| u64::from_str_radix(h, 16).unwrap_or_else(|_| panic!("hole bitmap literal {name}")))
+}
+
+/// The literal table above is exactly the enumeration `hole_alphabet()` describes.
+pub fn check_hole_vals() {
+    let want: Vec<u64> = hole_alphabet().into_iter().map(|(v, _)| v).collect();
+    let got: Vec<u64> = HOLE_VALS[1..].iter().map(|n| hole_value(n).expect("hex literal")).collect();
+    assert!(hole_value(HOLE_VALS[0]).is_none() && got == want, "HOLE_VALS does not spell hole_alphabet()");
+}
 
 // Values after the first `core` ones (third macro argument) are the extended alphabet.
 pub const SITES: [Site; NSITES] = [
@@ -120,6 +210,8 @@ pub const SITES: [Site; NSITES] = [
     site!("mtxp", &["off", "per_texture", "two_more"], 2, 1, 5),
     site!("blend_mesh", &["off", "two_batches", "one_batch", "big"], 2, 1, 5),
     site!("chunk_flags", &["none", "impassable_nofix", "high_res_holes"], 1, 0, chunk),
+    // the 64-bit hole bitmap of chunks with chunk_flags=high_res_holes (without effect otherwise)
+    site!("hole_bitmap", &HOLE_VALS, 1, 0, chunk),
 ];
 
 #[derive(Clone, Debug, PartialEq, Eq, Hash)]
@@ -153,6 +245,9 @@ impl Spec {
         }
         if matches!(SITES[S_WATER].vals[c.v[S_WATER] as usize], "none" | "present_empty") {
             c.v[S_WATERFMT] = 0;
+        }
+        if SITES[S_CFLAGS].vals[c.v[S_CFLAGS] as usize] != "high_res_holes" {
+            c.v[S_HOLES] = 0;
         }
         c
     }
@@ -451,7 +546,12 @@ pub fn make_chunk(spec: &Spec, i: usize, n: usize, ntex: usize) -> McnkChunk {
         index_y: iy,
         n_layers: 9,
         n_doodad_refs,
-        multipurpose_field: if cflags == "high_res_holes" { McnkHeader::multipurpose_from_holes(0x8040_2010_0804_0201 ^ ((i as u64) << 20)) } else { McnkHeader::multipurpose_from_offsets(stale, stale + 4) },
+        // the hole bitmap is a property of the chunk: the same literal on every flagged chunk of the tile
+        multipurpose_field: if cflags == "high_res_holes" {
+            McnkHeader::multipurpose_from_holes(hole_value(spec.val(S_HOLES)).unwrap_or(0x8040_2010_0804_0201 ^ ((i as u64) << 20)))
+        } else {
+            McnkHeader::multipurpose_from_offsets(stale, stale + 4)
+        },
         ofs_layer: stale,
         ofs_refs: stale,
         ofs_alpha: stale,
